@@ -222,6 +222,11 @@ def run_shard(ctx):
             inam2[rng.integers(0, T), :, :] = 0.0  # a time point without any energy
             ctx.count('with_silent_time_point')
         mode = gens.pick(rng, ['energy', 'amplitude'])
+        if rng.random() < .15:
+            # the unit of frequency is the caller's: the same recording and both bin sets in Hz for very slow / very fast processes
+            u = float(gens.pick(rng, [1e-9, 1e-6, 1e6]))
+            infr, e1, infr2, e2 = infr * u, e1 * u, infr2 * u, e2 * u
+            ctx.count('cases_in_other_frequency_units')
         fr = rng.random()
         if fr < .1:
             infr, infr2 = infr.astype(np.float32), infr2.astype(np.float32)
